@@ -37,6 +37,9 @@ def first : List UInt8 → Except Exc Int
   | [] => .error .indexError
   | b :: _ => .ok (b.toNat : Int)
 
+/-- an object reference compared with `is` (a socket): an identifier, 0 = None -/
+abbrev Ref := Int
+
 /-- what a translated method does to the client, one step at a time: a call of another method (by name, with its integer /
 boolean arguments) or the assignment of an integer (enum member, timestamp) to an attribute -/
 inductive MEff where
